@@ -23,12 +23,14 @@ Local Open Scope Z_scope.
 Record bfixes := mkBF {
   bf_same_pos : bool;    (* C06-same-pos-other-file: references skip a location inside the definition's range only in
                             the definition's FILE (ignoreDefineLoc was compared without the file name) *)
-  bf_doc_end : bool      (* C05-doc-end: definition / references / highlight / rename answer a cursor at the very end
+  bf_doc_end : bool;     (* C05-doc-end: definition / references / highlight / rename answer a cursor at the very end
                             of the document (offset = len(contents)) as hover does; before: `offset >= len` gave up *)
+  bf_for_order : bool    (* C05-for-step-order: cgForNumStat analyses init, limit, step (source order); before: init,
+                            STEP, limit - a function scope of the step was stored before those of the limit (class B5) *)
 }.
-Definition no_fixes : bfixes := mkBF false false.
-Definition all_fixes : bfixes := mkBF true true.
-Definition deployed : bfixes := mkBF true true.
+Definition no_fixes : bfixes := mkBF false false false.
+Definition all_fixes : bfixes := mkBF true true true.
+Definition deployed : bfixes := mkBF true true true.
 
 (* ------------------------------------------------------------------ Location predicates (lexer/common.go) *)
 Definition loc_eqb (a b : loc) : bool :=                      (* CompareTwoLoc *)
@@ -296,7 +298,8 @@ with tr_stat (flv slv : Z) (s : stat) (st : tstate) {struct s} : tstate :=
   | SWhile e b l => pop (tr_block flv (slv + 1) b (push l (tr_exp flv e st)))
   | SRepeat b e l => pop (tr_exp flv e (tr_block flv (slv + 1) b (push l st)))
   | SForNum n vl e1 e2 e3 b l =>
-    let st1 := tr_exp flv e2 (tr_exp flv e3 (tr_exp flv e1 (push l st))) in      (* init, step, limit *)
+    let st1 := tr_exp flv e3 (tr_exp flv e2 (tr_exp flv e1 (push l st))) in      (* init, limit, step: source order
+                                                                                    (fix C05-for-step-order; before: init, step, limit) *)
     pop (tr_block flv (slv + 1) b (add_var (mkV n vl RNone false) st1))
   | SForIn ns ls es b l =>
     let st1 := apply_all (map (fun e => tr_exp flv e) es) (push l st) in
@@ -324,6 +327,71 @@ with tr_block (flv slv : Z) (b : block) (st : tstate) {struct b} : tstate :=
     end
   end.
 
+(* ------------------------------------------------------------------ the traversal with the repairs as a parameter
+   (same text as tr_exp / tr_stat / tr_block; `tr_*_fx deployed` is convertible with the functions above:
+   Proofs/ResolveFixes.v) *)
+Section TraverseFx.
+Variable fx : bfixes.
+Fixpoint tr_exp_fx (flv : Z) (e : exp) (st : tstate) {struct e} : tstate :=
+  match e with
+  | EName n l => log OUse n l st
+  | EParens e1 _ => tr_exp_fx flv e1 st
+  | EUnop _ e1 _ => tr_exp_fx flv e1 st
+  | EBinop _ e1 e2 _ => tr_exp_fx flv e2 (tr_exp_fx flv e1 st)
+  | EIndex p k _ => tr_exp_fx flv k (tr_exp_fx flv p st)
+  | ECall p _ args _ => apply_all (map (fun a => tr_exp_fx flv a) args) (tr_exp_fx flv p st)
+  | ETable ks vs _ =>       (* outside the modelled fragment: keys then values *)
+    apply_all (map (fun a => tr_exp_fx flv a) vs)
+              (apply_all (map (fun k => match k with Some k' => tr_exp_fx flv k' | None => fun s => s end) ks) st)
+  | EFunc _ _ pars plocs b l _ _ =>
+    let st1 := push l st in
+    let st2 := fold_left (fun s pl => add_var (mkV (fst pl) (snd pl) RNone false) s) (combine pars plocs) st1 in
+    pop (tr_block_fx (flv + 1) 0 b st2)
+  | _ => st
+  end
+with tr_stat_fx (flv slv : Z) (s : stat) (st : tstate) {struct s} : tstate :=
+  match s with
+  | SBreak | SLabel _ _ | SGoto _ _ => st
+  | SDo b l => pop (tr_block_fx flv (slv + 1) b (push l st))
+  | SCall e => tr_exp_fx flv e st
+  | SIf es bs _ =>
+    if_loop (map (fun e => tr_exp_fx flv e) es)
+            (map (fun b => (block_loc b, tr_block_fx flv (slv + 1) b)) bs) st
+  | SWhile e b l => pop (tr_block_fx flv (slv + 1) b (push l (tr_exp_fx flv e st)))
+  | SRepeat b e l => pop (tr_exp_fx flv e (tr_block_fx flv (slv + 1) b (push l st)))
+  | SForNum n vl e1 e2 e3 b l =>
+    let st0 := tr_exp_fx flv e1 (push l st) in
+    let st1 := if bf_for_order fx then tr_exp_fx flv e3 (tr_exp_fx flv e2 st0)          (* init, limit, step *)
+               else tr_exp_fx flv e2 (tr_exp_fx flv e3 st0) in                          (* init, STEP, limit *)
+    pop (tr_block_fx flv (slv + 1) b (add_var (mkV n vl RNone false) st1))
+  | SForIn ns ls es b l =>
+    let st1 := apply_all (map (fun e => tr_exp_fx flv e) es) (push l st) in
+    let st2 := fold_left (fun s nl => add_var (mkV (fst nl) (snd nl) RNone false) s) (combine ns ls) st1 in
+    pop (tr_block_fx flv (slv + 1) b st2)
+  | SAssign vars es _ =>
+    assign_loop flv slv
+                (map (fun v => match v with
+                               | EName n l => TgName n l
+                               | EIndex p k _ => TgOther (fun s => tr_exp_fx flv k (tr_exp_fx flv p s))
+                               | _ => TgOther (fun s => s)
+                               end) vars)
+                (map (fun e => (e, tr_exp_fx flv e)) es) st
+  | SLocal ns ls _ es _ =>
+    local_loop (map (fun e => (e, tr_exp_fx flv e)) es) (combine ns ls) RNone st
+  | SLocalFunc n nl f _ => tr_exp_fx flv f (add_var (mkV n nl (ref_of_exp f) false) st)
+  end
+with tr_block_fx (flv slv : Z) (b : block) (st : tstate) {struct b} : tstate :=
+  match b with
+  | Block ss ret _ =>
+    let st1 := apply_all (map (fun s => tr_stat_fx flv slv s) ss) st in
+    match ret with
+    | Some es => apply_all (map (fun e => tr_exp_fx flv e) es) st1
+    | None => st1
+    end
+  end.
+
+End TraverseFx.
+
 (* ------------------------------------------------------------------ result of analysing one file *)
 Record fileinfo := mkFI {
   fi_root : scope;              (* MainFunc.MainScope, Loc = the chunk's block Loc *)
@@ -333,6 +401,14 @@ Record fileinfo := mkFI {
 
 Definition analyse (b : block) : fileinfo :=
   let st := tr_block 0 0 b (mkT [mkF (block_loc b) [] []] [] []) in
+  let root := match t_frames st with
+              | f :: _ => close_frame f
+              | [] => Scope (block_loc b) [] []
+              end in
+  mkFI root (t_globals st) (rev (t_occs st)).
+
+Definition analyse_fx (fx : bfixes) (b : block) : fileinfo :=
+  let st := tr_block_fx fx 0 0 b (mkT [mkF (block_loc b) [] []] [] []) in
   let root := match t_frames st with
               | f :: _ => close_frame f
               | [] => Scope (block_loc b) [] []
